@@ -123,6 +123,14 @@ claim("C12",
       "path of updateComponentTemp. Mass numbers and numerical restoration are not decided.",
       COMMON_NOTE, "role typing (abstract interpretation) + path conditions + statement ordering + all-paths counting", "DESIGN.md section 3 C12")
 
+claim("C07",
+      "Static analysis with proof-style clauses (exact algebra, no enumeration of inputs): hex unit steps extracted as matrices over Q(sqrt3)[pitch]; the six listed neighbours are one pitch "
+      "away and successive +60 degree rotations, for both orientations; pitch property and degree-1 homogeneity in the pitch; affine coordinate formulas and nesting; ring-count polynomial "
+      "identities; the six edges of indicesToRingPos and of its inverse composed as affine maps give the identity, ring = hex distance + 1 by vertex evaluation; the region guards evaluated in "
+      "the sign domain on all 13 faces of the arrangement {i=0, j=0, i+j=0} select the decoder's edge (exhaustive because the guards are homogeneous); label codec (sign/separator collision for "
+      "Cartesian labels: recorded known finding). Floating-point exactness of numRingsToHoldNumCells and Cartesian ring numbering are not decided.",
+      COMMON_NOTE, "exact normal forms over Q(sqrt3) + affine map composition + sign-domain abstract interpretation", "DESIGN.md section 3 C07")
+
 NA_REASON = {}
 
 
